@@ -15,7 +15,8 @@ def c10cfg : Cfg := ⟨lit "h", 80, 80, 4, .ok [], .error .unicodeError⟩
 /-
 Full statement (Appendix E):  `serialize … = .error e → wireWritten … = []`.
 It does NOT hold: `str` pieces of a lazily consumed body (iterable, text file) are encoded while the
-body is being sent, after the head went out (`C10_fail_after_write_witness`).  What holds: every
+body is being sent, after the head went out (`C10_fail_after_write_witness`); `C10_fail_before_write`
+below states exactly which failures those are.  First the unconditional half: every
 failure of the head phase — method / target / host / header validation, `SKIP_HEADER` misuse,
 encoding failures, `body_to_chunks` (str body) — leaves nothing written.
 -/
@@ -33,6 +34,30 @@ theorem C10_fail_after_write_witness :
       = .error .unicodeEncodeError ∧
     wireWritten c10cfg (lit "POST") (lit "/") [] (.iter [.str [97], .str [0xDC80]] false) false ≠ [] := by
   decide
+
+/-- The precise form of "fails before a single byte is written": when the call fails, either the head
+phase failed and nothing was written, or the complete head was written and the failure is the
+`UnicodeEncodeError` of a `str` piece of a lazily consumed body — an iterable, or a text file — i.e. a
+body whose bytes (`payload`) do not exist.  (`C10_fail_after_write_witness` shows the second case is
+real.) -/
+theorem C10_fail_before_write (cfg : Cfg) (meth url : Str) (hs : List (Str × Str)) (body : Body) (ch : Bool)
+    (e : Exc) (hbs : 0 < cfg.blocksize) (h : serialize cfg meth url hs body ch = .error e) :
+    (prepare cfg meth url hs body ch = .error e ∧ wireWritten cfg meth url hs body ch = []) ∨
+    (∃ p, prepare cfg meth url hs body ch = .ok p ∧ (bodyPhase p).err = some e ∧
+      wireWritten cfg meth url hs body ch = headBytes p.lines ++ (bodyPhase p).written ∧
+      e = .unicodeEncodeError ∧ payload body = none ∧ LazyText body) :=
+  serialize_error_cases hbs h
+
+/-- … hence for every body whose bytes exist (all `str` pieces encodable) a failing call writes nothing -/
+theorem C10_fail_before_write_encodable (cfg : Cfg) (meth url : Str) (hs : List (Str × Str)) (body : Body)
+    (ch : Bool) (e : Exc) (hbs : 0 < cfg.blocksize) (hb : (payload body).isSome = true)
+    (h : serialize cfg meth url hs body ch = .error e) : wireWritten cfg meth url hs body ch = [] := by
+  rcases serialize_error_cases hbs h with ⟨_, hw⟩ | ⟨p, _, _, _, _, hpn, _⟩
+  · exact hw
+  · rw [hpn] at hb; simp at hb
+
+example : (payload (.iter [.str [0xE9], .bytes [1, 2]] true)).isSome = true := by decide
+example : serialize c10cfg (lit "P T") (lit "/") [] (.iter [.str [0xE9]] true) false = .error .valueError := by decide
 
 /-
 Full statement: for every accepted input the permissive parser reads the bytes written back as
